@@ -184,7 +184,7 @@ func genOp(r *rand.Rand, l model.Layout, now int64, o histOpts) Op {
 		if d < 1 {
 			d = 1
 		}
-		hi := int64(1)<<32 - 1 - l.MaxStep() - 1
+		hi := int64(1)<<32 - 1 - 2*l.MaxStep() - 1
 		if now+d > hi {
 			d = 0
 		}
